@@ -73,13 +73,57 @@ FAMILIES = [
     "nest3_pre", "nest3_textarea", "nest3_rt", "nest3_rp", "nest3_template",
     # markup only: <X>t<X>t<X>t…</X></X></X> — n nested X, each starting with the same text
     "nestlead_pre", "nestlead_textarea", "nestlead_rt", "nestlead_template",
+    "style_head",       # <style>x</style><b><b>…</b>t</b>t   markup only: a string container closed before the deep part
+    "both_unclosed_end",  # <b><b>…<style>x                  markup only: a string container still open at the end of input
+    # markup only, with a builder configuration: tags that are in BOTH tables / in neither
+    "nest3_rt@pw_plus", "nestlead_rt@pw_plus", "nestlead_template@pw_plus", "style_head@pw_plus", "both_unclosed_end@pw_plus",
+    "chain_text@pw_plus", "pre_nested@pw_plus",
+    "nest3_pre@sc_plus", "nestlead_pre@sc_plus", "nestlead_textarea@sc_plus", "pre_chain@sc_plus", "style_head@sc_plus",
+    "chain_text@sc_plus",
+    "nest3_pre@empty", "nestlead_rt@empty", "chain_text@empty", "style_head@empty",
     "twins",            # <a> <a><a>…x…</a></a> <a><a>…x…</a></a> </a>   two identical deep chains side by side
     "builderless",      # Tag(name="a") nested by hand (known_xml is None), trailing text
 ]
 PARSED_ONLY_OPS_FAMILIES = [f for f in FAMILIES if f != "builderless"]
 
 
+# builder configurations (the tables `pushTag`/`popTag`/`endData`/`string_container` consult). A family name may carry one:
+# "<base>@<config>"; such families are parsed (never hand-linked) with these constructor arguments.
+CONFIG_NAMES = ("default", "pw_plus", "sc_plus", "empty")
+
+
+def split_family(fam: str):
+    base, _, cfg = fam.partition("@")
+    return base, (cfg or "default")
+
+
+def config_kwargs(name: str) -> dict:
+    if name == "default":
+        return {}
+    from bs4.builder import HTMLTreeBuilder
+    from bs4.element import RubyTextString, PreformattedString
+    if name == "pw_plus":      # "do not re-indent these either": whitespace-preserving tags that are ALSO string containers
+        return {"preserve_whitespace_tags": set(HTMLTreeBuilder.DEFAULT_PRESERVE_WHITESPACE_TAGS) | {"script", "style", "rt", "rp", "template"}}
+    if name == "sc_plus":      # string containers that are ALSO whitespace-preserving
+        d = dict(HTMLTreeBuilder.DEFAULT_STRING_CONTAINERS)
+        d.update({"pre": RubyTextString, "textarea": PreformattedString, "b": RubyTextString})
+        return {"string_containers": d}
+    if name == "empty":
+        return {"preserve_whitespace_tags": set(), "string_containers": {}}
+    raise KeyError(name)
+
+
+def config_tables(name: str):
+    """(whitespace-preserving name codes, string-container name codes) as the LIVE builder holds them"""
+    from bs4.builder import HTMLParserTreeBuilder
+    b = HTMLParserTreeBuilder(**config_kwargs(name))
+    pre = sorted(NAME_CODE[x] for x in b.preserve_whitespace_tags if x in NAME_CODE)
+    sc = sorted(NAME_CODE[x] for x in b.string_containers if x in NAME_CODE)
+    return pre, sc
+
+
 def family_events(fam: str, n: int):
+    fam = split_family(fam)[0]
     ev = []
     o, c, t = (lambda nm, at, lv: ev.append(("o", nm, at, lv))), (lambda: ev.append(("c",))), (lambda s: ev.append(("t", s)))
     if fam == "chain":
@@ -180,6 +224,23 @@ def family_events(fam: str, n: int):
             t("t")
         for k in range(n):
             c()
+    elif fam == "style_head":
+        o("style", {}, None)
+        t("x")
+        c()
+        for k in range(n):
+            o("b", {}, k)
+        for k in range(n):
+            c()
+            t("t")
+    elif fam == "both_unclosed_end":
+        for k in range(n):
+            o("b", {}, k)
+        o("style", {}, None)
+        t("x")
+        ev.append(("c", "implicit"))
+        for k in range(n):
+            ev.append(("c", "implicit"))
     elif fam == "unclosed":
         o("a", {}, 0)
         for k in range(1, n):
@@ -272,7 +333,8 @@ def events_markup(ev) -> str:
     return "".join(out)
 
 
-NAME_CODE = {"a": 1, "b": 2, "br": 3, "div": 4, "p": 5, "pre": 6, "rt": 7, "n": 8, "textarea": 9, "rp": 10, "template": 11}
+NAME_CODE = {"a": 1, "b": 2, "br": 3, "div": 4, "p": 5, "pre": 6, "rt": 7, "n": 8, "textarea": 9, "rp": 10, "template": 11,
+             "style": 12, "script": 13}
 ATTR_CODE = {}
 
 
@@ -303,7 +365,7 @@ def events_tokens(ev, builderless: bool) -> str:
 # --------------------------------------------------------------------------------------
 class H:
     """handles into one built tree"""
-    __slots__ = ("soup", "root", "top", "mid", "inner", "levels", "elems", "markup", "n", "extra", "args")
+    __slots__ = ("soup", "root", "top", "mid", "inner", "levels", "elems", "markup", "n", "extra", "args", "cfg")
 
 
 def _bs():
@@ -320,6 +382,7 @@ def build_raw(ev, builderless: bool) -> H:
     from bs4.element import Tag, NavigableString
     h = H()
     h.extra = []
+    h.cfg = {}
     if builderless:
         soup = None
         root = Tag(name="root")
@@ -372,13 +435,14 @@ def build_raw(ev, builderless: bool) -> H:
     return h
 
 
-def build_parsed(ev) -> H:
+def build_parsed(ev, cfg=None) -> H:
     from bs4 import BeautifulSoup
     from bs4.element import Tag
     h = H()
     h.extra = []
+    h.cfg = cfg or {}
     h.markup = events_markup(ev)
-    soup = BeautifulSoup(h.markup, "html.parser")
+    soup = BeautifulSoup(h.markup, "html.parser", **h.cfg)
     h.soup = h.root = soup
     # the chain levels, found iteratively along the element chain
     want = [e for e in ev if e[0] == "o"]
@@ -528,17 +592,17 @@ def _op_pickle_tag(h):
 
 def _strainer_parse(h):
     from bs4 import BeautifulSoup, SoupStrainer
-    return BeautifulSoup(h.markup, "html.parser", parse_only=SoupStrainer(["a", "div", "pre", "rt"]))
+    return BeautifulSoup(h.markup, "html.parser", parse_only=SoupStrainer(["a", "div", "pre", "rt"]), **h.cfg)
 
 
 def _parse(h):
     from bs4 import BeautifulSoup
-    return BeautifulSoup(h.markup, "html.parser")
+    return BeautifulSoup(h.markup, "html.parser", **h.cfg)
 
 
 def _parse_bytes(h):
     from bs4 import BeautifulSoup
-    return BeautifulSoup(h.markup.encode("utf8"), "html.parser")
+    return BeautifulSoup(h.markup.encode("utf8"), "html.parser", **h.cfg)
 
 
 class InvariantBroken(Exception):
@@ -570,7 +634,78 @@ def _parse_invariant(h):
             r = BeautifulSoup.popTag(self)
             check(self)
             return r
-    return Checked(h.markup, "html.parser")
+    return Checked(h.markup, "html.parser", **h.cfg)
+
+
+class StateLeak(Exception):
+    pass
+
+
+def _state_refs(soup, d, budget=20000):
+    """tree objects (other than the document object itself) reachable from the state dict `d` through plain containers and
+    the attributes of non-tree objects (the builder, a strainer, …) — an iterative walk"""
+    from bs4.element import PageElement
+    hits, seen = [], set()
+    stack = [("state[%r]" % k, v) for k, v in d.items()]
+    while stack and budget > 0:
+        budget -= 1
+        path, v = stack.pop()
+        if v is soup or v is None or isinstance(v, (str, bytes, int, float, bool, type)) and not isinstance(v, PageElement):
+            continue
+        if id(v) in seen:
+            continue
+        seen.add(id(v))
+        if isinstance(v, PageElement):
+            hits.append("%s -> %s %r" % (path, type(v).__name__, getattr(v, "name", None) or str(v)[:10]))
+            continue
+        if isinstance(v, dict):
+            stack.extend(("%s[%r]" % (path, k), x) for k, x in v.items())
+            stack.extend(("%s.key" % path, k) for k in v)
+        elif isinstance(v, (list, tuple, set, frozenset)):
+            stack.extend(("%s[%d]" % (path, i), x) for i, x in enumerate(v))
+        elif hasattr(v, "__dict__") and not callable(v):
+            stack.extend(("%s.%s" % (path, k), x) for k, x in vars(v).items())
+    return hits
+
+
+def _parse_state_clean(h):
+    """After the parse no parser-side reference to a tree object may survive: both side stacks empty, the tag stack back to
+    the document object, and the state `__getstate__` hands to pickle free of Tag / NavigableString objects (in any
+    container, or behind the builder)."""
+    from bs4 import BeautifulSoup
+    soup = BeautifulSoup(h.markup, "html.parser", **h.cfg)
+    bad = []
+    if soup.preserve_whitespace_tag_stack:
+        bad.append("preserve_whitespace_tag_stack = %r" % [t.name for t in soup.preserve_whitespace_tag_stack])
+    if soup.string_container_stack:
+        bad.append("string_container_stack = %r" % [t.name for t in soup.string_container_stack])
+    if len(soup.tagStack) != 1 or soup.tagStack[0] is not soup or soup.currentTag is not soup:
+        bad.append("tagStack has %d entries" % len(soup.tagStack))
+    refs = _state_refs(soup, soup.__getstate__())
+    if refs:
+        bad.append("pickled state holds tree objects: " + "; ".join(refs[:3]))
+    if bad:
+        raise StateLeak("C11-state: after the parse " + " | ".join(bad))
+    return soup
+
+
+def _op_pickle_py(h):
+    """the pure-Python pickler: every level of object traversal is a Python frame the profile can see"""
+    import pickle
+    return pickle._loads(pickle._dumps(h.soup))
+
+
+def _op_pickle_py_insert0(h):
+    import pickle
+    h.soup.insert(0, "lead")
+    return pickle._loads(pickle._dumps(h.soup))
+
+
+def _op_pickle_py_copy(h):
+    import pickle, copy
+    c = copy.copy(h.soup)
+    h.extra.append(c)
+    return pickle._loads(pickle._dumps(c))
 
 
 def _position(parent, child):
@@ -643,6 +778,7 @@ OPS = {
     "parse_bytes": ("markup", _parse_bytes),
     "parse_strainer": ("markup", _strainer_parse),
     "parse_invariant": ("markup", _parse_invariant),
+    "parse_state_clean": ("markup", _parse_state_clean),
     # render
     "decode": ("tree", lambda h: h.top.decode()),
     "decode_html": ("tree", lambda h: h.top.decode(formatter="html")),
@@ -672,6 +808,9 @@ OPS = {
     "doc_pickle": ("doc", _op_pickle),
     "doc_pickle_insert0": ("doc", _op_pickle_insert0),
     "doc_pickle_copy": ("doc", _op_pickle_copy),
+    "doc_pickle_py": ("doc", _op_pickle_py),
+    "doc_pickle_py_insert0": ("doc", _op_pickle_py_insert0),
+    "doc_pickle_py_copy": ("doc", _op_pickle_py_copy),
     # text
     "get_text": ("tree", lambda h: h.top.get_text()),
     "get_text_sep_strip": ("tree", lambda h: h.top.get_text("|", strip=True)),
@@ -803,7 +942,7 @@ MID_OPS = {"decode_mid", "copy_mid", "string_getter_mid", "find_next_siblings", 
 INNER_OPS = {"decode_inner", "encode_inner", "copy_inner", "find_parents", "find_parents_name", "find_parent",
              "find_all_previous", "find_previous", "previous_elements", "parents", "extract_inner", "insert_before_inner",
              "insert_after_inner", "append_inner", "string_setter_inner"}
-LINKED_OPS = {"doc_pickle_insert0", "doc_pickle_copy"}
+LINKED_OPS = {"doc_pickle_insert0", "doc_pickle_copy", "doc_pickle_py_insert0", "doc_pickle_py_copy"}
 
 
 def receiver(op: str) -> str:
@@ -818,13 +957,17 @@ MARKUP_OPS = [k for k, v in OPS.items() if v[0] == "markup"]
 DOC_OPS = [k for k, v in OPS.items() if v[0] == "doc"]
 
 
-MARKUP_ONLY = ("unclosed", "unclosed_eof", "nest3_pre", "nest3_textarea", "nest3_rt", "nest3_rp", "nest3_template",
+MARKUP_ONLY = ("style_head", "both_unclosed_end", "unclosed", "unclosed_eof", "nest3_pre", "nest3_textarea", "nest3_rt", "nest3_rp", "nest3_template",
                "nestlead_pre", "nestlead_textarea", "nestlead_rt", "nestlead_template")
+
+
+def is_markup_only(fam: str) -> bool:
+    return "@" in fam or fam in MARKUP_ONLY
 
 
 def applicable(op: str, fam: str, build: str) -> bool:
     kind = OPS[op][0]
-    if fam in MARKUP_ONLY:
+    if is_markup_only(fam):
         return build == "parsed" and kind in ("markup", "doc")
     if fam == "builderless":
         if build != "raw" or kind in ("markup", "doc"):
@@ -867,6 +1010,7 @@ def worker_main():
     assert os.path.realpath(bs4.__file__).startswith(os.path.realpath(repo)), (bs4.__file__, repo)
     fam = job["family"]
     builderless = fam == "builderless"
+    cfg = config_kwargs(split_family(fam)[1])
     out = sys.stdout
 
     def emit(**kw):
@@ -884,11 +1028,13 @@ def worker_main():
             h = H()                      # the parse operations need the markup only
             h.extra, h.elems, h.root, h.soup = [], [], None, None
             h.markup = events_markup(ev)
+            h.cfg = cfg
         else:
-            h = build_parsed(ev)
+            h = build_parsed(ev, cfg)
         return h
 
-    for op, bkind in job["jobs"]:
+    for op, bkind, *_deep in job["jobs"]:
+        deep_list = _deep[0] if _deep else job["deep"]
         fn = OPS[op][1]
         prep = OPS[op][2] if len(OPS[op]) > 2 else (lambda h: None)
         build = (lambda k, n, mo=(OPS[op][0] == "markup"): build0(k, n, mo))
@@ -937,7 +1083,7 @@ def worker_main():
                 sys.setprofile(None)
                 if h is not None:
                     teardown_h(h, r)
-        for n in job["deep"]:
+        for n in deep_list:
             h = r = None
             t0 = time.time()
             stage = "(while building the tree by parsing)"
@@ -969,10 +1115,17 @@ if __name__ == "__main__" and "--worker" in sys.argv:
 # --------------------------------------------------------------------------------------
 # check side
 # --------------------------------------------------------------------------------------
-def _jobs_for(fam: str):
+# quick tier: the near-copy / twin-sibling histories run on these families only (thorough: on every tree family)
+HISTORY_FAMILIES_QUICK = ("chain", "chain_text", "chain_sibling", "attrs_same", "repeated", "twins", "pre_nested", "builderless")
+
+
+def _jobs_for(fam: str, thorough: bool = True):
     jobs = []
     for op, v in OPS.items():
         kind = v[0]
+        if (not thorough and op.startswith(("nc_", "tw_")) and not fam.startswith("random:")
+                and fam not in HISTORY_FAMILIES_QUICK):
+            continue
         if applicable(op, fam, "raw"):
             jobs.append((op, "raw"))
         if kind in ("markup", "doc") and applicable(op, fam, "parsed"):
@@ -1022,7 +1175,7 @@ def run_worker(repo: str, fam: str, jobs, depths, deep, timeout=1500):
         if begun is not None:
             crashes.append({"op": begun[0], "build": begun[1], "rc": rc, "stderr": err[-600:]})
             done.add(begun)
-        todo = [j for j in todo if tuple(j) not in done]
+        todo = [j for j in todo if tuple(j[:2]) not in done]
     if hello is not None:
         hello["wall_s"] = round(time.time() - t_start, 1)
     return records, crashes, hello
@@ -1069,6 +1222,7 @@ def model_growth(fams, ops_by_fam):
     {(fam, op): (growth_new, growth_old)}; None where the accounting has no such operation"""
     from .common import Driver
     lines, keys = [], []
+    tables = {c: config_tables(c) for c in CONFIG_NAMES}
     for fam in fams:
         ops = ops_by_fam[fam]
         if not ops:
@@ -1079,7 +1233,10 @@ def model_growth(fams, ops_by_fam):
             toks = events_tokens(ev, bl)
             specs = " ".join("%s:%s:%d" % (op, recv_index(ev, receiver(op)), 1 if op in LINKED_OPS else 0) for op in ops)
             for variant in ("new", "old"):
-                lines.append("c11 depth %s %d %d %d %s %s" % (variant, 0 if bl else 1, mid_name_code(ev), len(ops), specs, toks))
+                pre, sc = tables[split_family(fam)[1]]
+                lines.append("c11 depth %s %d %d %s %s %d %s %s" % (variant, 0 if bl else 1, mid_name_code(ev),
+                                                                 ",".join(map(str, pre)) or "-", ",".join(map(str, sc)) or "-",
+                                                                 len(ops), specs, toks))
                 keys.append((fam, n, variant))
     replies = Driver().ask(lines)
     val = {}
@@ -1116,23 +1273,28 @@ def run(ctx):
         "operations: measured and recorded (eq_copy doubles as a positive control of the measurement), never flagged",
         "sys.getrecursionlimit() left at its default; every measurement in a subprocess",
     ]
-    depths = [50, 100, 200, 400] + ([800] if ctx.thorough else [])
+    depths = [50, 100, 200] + ([400, 800] if ctx.thorough else [])
     deep = [3000] + ([6000] if ctx.thorough else [])
     deep_all = deep
+
+    def op_deep(op, deep_fam):
+        # the histories copy the deep element once or twice before the measured call: half the depth (still beyond the limit)
+        return [max(x // 2, 1500) for x in deep_fam] if op.startswith(("nc_", "tw_")) else deep_fam
 
     def deep_of(fam):
         # copying a builder-less tree costs O(depth) per element (_is_xml walks up to the root): half the depth, still
         # well beyond the recursion limit
-        return [x // 2 for x in deep_all] if fam == "builderless" else deep_all
+        return [x // 2 for x in deep_all] if fam in ("builderless", "repeated") else deep_all
     nrand = ctx.n(3, 10)
     r = ctx.rng("families")
     fams = list(FAMILIES) + ["random:%d:%d" % (ctx.seed, r.randrange(10 ** 6)) for _ in range(nrand)]
-    jobs = {fam: _jobs_for(fam) for fam in fams}
+    jobs = {fam: _jobs_for(fam, ctx.thorough) for fam in fams}
     t0 = time.time()
     with ThreadPoolExecutor(max_workers=min(16, len(fams))) as ex:
         # longest first (builder-less copies are quadratic, `repeated` has three times the elements, markup-only families are short)
-        order = sorted(fams, key=lambda f: (0 if f == "builderless" else 1 if f == "repeated" else 3 if f in MARKUP_ONLY else 2))
-        futs = {fam: ex.submit(run_worker, str(REPO), fam, jobs[fam], depths, deep_of(fam)) for fam in order}
+        order = sorted(fams, key=lambda f: (0 if f == "builderless" else 1 if f == "repeated" else 3 if is_markup_only(f) else 2))
+        futs = {fam: ex.submit(run_worker, str(REPO), fam, [(op, b, op_deep(op, deep_of(fam))) for op, b in jobs[fam]],
+                               depths, deep_of(fam)) for fam in order}
         results = {fam: f.result() for fam, f in futs.items()}
     ctx.extra["measure_wall_s"] = round(time.time() - t0, 1)
 
@@ -1159,18 +1321,28 @@ def run(ctx):
     for fam in fams:
         records, crashes, _ = results[fam]
         fam_key = fam.split(":")[0]
-        deep = deep_of(fam)
+        deep_fam = deep_of(fam)
         for c in crashes:
             ctx.case(None)
             ctx.count("crash")
             ctx.violation("interpreter died during the operation (hard crash)",
-                          case={"operation": c["op"], "family": fam, "build": c["build"], "depths": depths, "deep": deep},
+                          case={"operation": c["op"], "family": fam, "build": c["build"], "depths": depths,
+                                "deep": op_deep(c["op"] or "", deep_fam)},
                           expected="completes", observed={"exit": c["rc"], "stderr_tail": c["stderr"]}, stream="measure",
                           kf=classify(c["op"], fam) if c["op"] else None)
         for rec in records:
             op, build = rec["op"], rec["build"]
+            deep = op_deep(op, deep_fam)
             kind = OPS[op][0]
             case = {"operation": op, "family": fam, "build": build, "depths": depths, "deep": deep}
+            if isinstance(rec.get("warm"), str) and "C11-state" in rec["warm"]:
+                ctx.case(None)
+                ctx.count("after-parse-state:leak")
+                ctx.violation("parser state leaks out of the parse: a tree object survives in the state handed to pickle",
+                              case=case | {"depths": [WARM_DEPTH], "deep": []},
+                              expected="both side stacks empty, tagStack = [document], no Tag/NavigableString in __getstate__()",
+                              observed=rec["warm"], stream="after-parse-state")
+                continue
             if isinstance(rec.get("warm"), str) and "C11-invariant" in rec["warm"]:
                 ctx.case(None)
                 ctx.count("invariant:broken")
@@ -1238,6 +1410,8 @@ def run(ctx):
                     parse_flagged[fam] = True
                 what = ("the invariant the parse bound rests on (side stacks = tag stack filtered by name) does not hold in the running parser"
                         if any(isinstance(x, str) and "C11-invariant" in x for x in ds + dp) else
+                        "parser state leaks out of the parse: a tree object survives in the state handed to pickle"
+                        if any(isinstance(x, str) and "C11-state" in x for x in ds + dp) else
                         "the PARSE that builds the tree for this operation fails" if build_failed else
                         "call depth grows with the nesting" if ints and not ok_growth else
                         "RecursionError/failure while measuring" if not ints else "RecursionError beyond the recursion limit")
@@ -1292,7 +1466,7 @@ def replay(path):
     if not c.get("operation"):
         print(json.dumps(v, indent=1)[:3000])
         return 1
-    records, crashes, hello = run_worker(repo, c["family"], [(c["operation"], c["build"])], c["depths"], c["deep"])
+    records, crashes, hello = run_worker(repo, c["family"], [(c["operation"], c["build"], c["deep"])], c["depths"], c["deep"])
     print("bs4:", hello and hello["bs4"])
     bad = bool(crashes)
     for cr in crashes:
